@@ -468,6 +468,39 @@ def spur_instance_rule(ctx, rid):
     _spur_instance(ctx, F, b, tm, spur[0])
 
 
+def spur_route_rule(ctx, rid):
+    """a candidate of Yen's algorithm ends with the route the spur search found (shared with C01: a candidate without it is the
+    root path alone, which stops at the spur vertex)"""
+    F = ctx.F
+    ctx.rule(rid, "Yen's: candidate = root path ++ the route found by the spur search towards the target; a spur search without a route yields no candidate (its absence is an Err / skips the candidate, never an empty or defaulted spur path)", floor=2)
+    b = F.need(K + "yens_algorithm::run")
+    tm = Terms(b)
+    runs = [c for c in b.calls() if c.callee == astar.A + "search_algorithm::SearchAlgorithm::run_vertex_oriented"]
+    spur = [c for c in runs if innermost_loop(b, c.bb) is not None]
+    if len(spur) != 1:
+        raise AnchorMissing("spur search in yens_algorithm::run")
+    spur = spur[0]
+    lp = innermost_loop(b, spur.bb)
+    chains = [c for c in b.calls() if c.callee and itm(c.callee, "chain") and c.bb in lp[1]]
+    if not ctx.check(len(chains) == 1, "candidate:root++spur", "expected one `root_path.chain(spur_path)` in the spur loop, found %d" % len(chains), b.where()):
+        return
+    ch = chains[0]
+    raw = nosite(tm.operand(ch.args[1], ch.bb))
+    dflt = [x for x in subterms(raw) if x[0] == "default" or (x[0] == "call" and re.search(r"(Option|Result)::<.*>::(unwrap_or_default|unwrap_or|unwrap_or_else|map_or|map_or_else)$|::or_else$|Option::<T>::or$", x[1].split("{")[0]))]
+    st = clean(raw)
+    while st[0] == "call" and len(st[2]) == 1 and re.search(r"::(iter|into_iter|as_slice|to_vec|as_ref)$|Iterator>?::(cloned|copied)$", st[1].split("{")[0]):
+        st = st[2][0]
+    sp = clean(tm.call_term(spur.term, spur.bb))
+    src = None
+    if st[0] == "call" and st[1] == K + "yens_algorithm::get_first_route" and contains(st[2][0], lambda q: q == sp):
+        src = "get_first_route(spur result)"
+    elif st[0] == "call" and st[1].endswith("::first") and len(st[2]) == 1 and st[2][0][0] == "field" and st[2][0][2] == "routes" and contains(st[2][0][1], lambda q: q == sp):
+        src = "spur result.routes.first()"
+    ctx.check(src is not None and not dflt, "candidate:spur-route-found", "the spur part of a candidate is not the route found by the spur search (%s): when the spur search has no route the root path alone — which stops at the spur vertex, not at the target — becomes a candidate" % ("defaulted through %s" % short(dflt[0])[:80] if dflt else short(st)[:120]), ch.where(), detail=src or "")
+    root = clean(tm.operand(ch.args[0], ch.bb))
+    ctx.check(contains(root, lambda q: q[0] == "call" and itm(q[1], "take")), "candidate:root-prefix", "the root part of a candidate is not a prefix (take) of the previously accepted path", ch.where())
+
+
 def R3_yens(ctx):
     """C13.R3 Yen's structure"""
     F = ctx.F
@@ -587,4 +620,9 @@ def R4_criteria(ctx):
     ctx.check(has_q and has_d, "k-override", "k is not query[\"k\"] when present and the configured default otherwise: %s" % [short(k)[:80] for k in flat], qb.where(), detail="query.k or default")
 
 
-RULES = [R1_similarity, R2_single_via, R2b_loop_test, R2c_reorient, R3_yens, R4_criteria]
+def R5_spur_route(ctx):
+    """C13.R5 a candidate ends with the found spur route"""
+    spur_route_rule(ctx, "C13.R5")
+
+
+RULES = [R1_similarity, R2_single_via, R2b_loop_test, R2c_reorient, R3_yens, R4_criteria, R5_spur_route]
